@@ -14,6 +14,11 @@ import (
 //
 //	duplicate-netaddress: Dups peers connect from one address and announce the
 //	  same dial-back port, so they share one key of the peer map;
+//	backpressured-peer-not-closed: a peer has MaxInflightRPCs handlers waiting
+//	  for their request bodies and one more stream waiting for a slot; on
+//	  shutdown its peer loop leaves through the thread group's Done channel
+//	  (removing the peer from the map) before Run - descheduled for LingerUs in
+//	  its own listener Close - gets to close the peers it finds in the map;
 //	late-inbound-peer: a peer finishes its handshake after the listener was
 //	  closed (Run has already closed the existing peers) but before the thread
 //	  group is stopped - the closing goroutine is descheduled for LingerUs
@@ -31,6 +36,7 @@ func deadlockCases(r *mon.Run) []DeadlockCase {
 	cs := []DeadlockCase{
 		{Phase: "deadlock", Kind: "duplicate-netaddress", Index: 0, Dups: 2},
 		{Phase: "deadlock", Kind: "late-inbound-peer", Index: 1, LingerUs: 150000, ShakeUs: 10000},
+		{Phase: "deadlock", Kind: "backpressured-peer-not-closed", Index: 4, LingerUs: 20000},
 	}
 	if r.Thorough() {
 		rng := r.RNG(0xD000)
@@ -65,8 +71,12 @@ func runDeadlockCase(r *mon.Run, c DeadlockCase) (join func()) {
 	cfg := limitlab.NodeConfig{IP: victimIP(200 + c.Index), Opts: []syncer.Option{
 		syncer.WithSyncInterval(time.Hour), syncer.WithPeerDiscoveryInterval(time.Hour), syncer.WithConnectTimeout(20 * time.Second),
 	}}
-	if c.LingerUs > 0 {
+	if c.LingerUs > 0 && c.Kind == "late-inbound-peer" {
 		cfg.Linger = func() time.Duration { return us(c.LingerUs) }
+	}
+	if c.Kind == "backpressured-peer-not-closed" {
+		cfg.LingerRun = func() time.Duration { return us(c.LingerUs) }
+		cfg.Opts = append(cfg.Opts, syncer.WithMaxInflightRPCs(1), syncer.WithMaxInflightRPCsPerSubnet(0))
 	}
 	node, err := w.NewNode(cfg)
 	if err != nil {
@@ -133,6 +143,43 @@ func runDeadlockCase(r *mon.Run, c DeadlockCase) (join func()) {
 			return nop
 		}
 		r.Distinct("deadlock/late-inbound-peer")
+	case "backpressured-peer-not-closed":
+		a, err := w.DialAttacker(1, node.Addr, "127.18.7.9", 45002, nil)
+		if err != nil {
+			r.Inconclusive("deadlock: attacker could not connect: " + err.Error())
+			closeNode(r, "deadlock", node, c)
+			return nop
+		}
+		a.Serve()
+		atts = append(atts, a)
+		if err := a.Ping(settleBound); err != nil {
+			r.Inconclusive("deadlock: attacker ping failed: " + err.Error())
+			hangUp()
+			closeNode(r, "deadlock", node, c)
+			return nop
+		}
+		// two streams that carry only their RPC id: the first occupies the
+		// single slot (its handler waits for the request body), the second is
+		// accepted and waits for the slot
+		release := make(chan struct{})
+		late.Add(1)
+		go func() {
+			defer late.Done()
+			a.Burst(1, []limitlab.ReqPlan{{Kind: 0, HalfOpen: true}, {Kind: 1, HalfOpen: true}}, 10*time.Minute, release)
+		}()
+		defer close(release)
+		deadline := time.Now().Add(settleBound)
+		for limitlab.BackpressuredPeerLoops() == 0 {
+			if time.Now().After(deadline) {
+				r.Inconclusive("deadlock: the peer loop never became back-pressured")
+				hangUp()
+				closeNode(r, "deadlock", node, c)
+				return nop
+			}
+			time.Sleep(time.Millisecond)
+		}
+		detail["state"] = "one handler waits for its request body, the peer loop waits for a free slot"
+		r.Distinct("deadlock/backpressured-peer-not-closed")
 	default:
 		r.Inconclusive("deadlock: unknown kind " + c.Kind)
 		return nop
@@ -156,7 +203,11 @@ func runDeadlockCase(r *mon.Run, c DeadlockCase) (join func()) {
 		detail["peersListedWhileStuck"] = len(node.S.Peers())
 		mu.Unlock()
 		r.Count("deadlock.close_stuck_30s", 1)
-		r.Violation("close-deadlock-"+c.Kind, "Syncer.Close did not return within 30 s: a connected peer is no longer (or not yet) reachable through the peer map, nobody closes it, and the thread group waits for its RPC loop forever", c, detail)
+		sig, what := "close-deadlock-"+c.Kind, "Syncer.Close did not return within 30 s: a connected peer is no longer (or not yet) reachable through the peer map, nobody closes it, and the thread group waits for its RPC loop forever"
+		if c.Kind == "backpressured-peer-not-closed" {
+			sig, what = "close-waits-for-rpc-timeout:backpressured-peer-not-closed", "Syncer.Close did not return within 30 s: the peer loop of a back-pressured peer left through the thread group's Done channel without closing the transport, Run no longer found the peer in the map, and the peer's handlers keep waiting for their request bodies until the RPC timeout (default 5 minutes)"
+		}
+		r.Violation(sig, what, c, detail)
 		// every remote end hangs up; the stuck Close must then come back
 		hangUp()
 		if p.wait(livenessBound) {
